@@ -430,7 +430,7 @@ def split_ndjson(path, parts, outprefix):
 # thorough tier: number of rounds (independent seeds) of each check body, fitted to the measured time of one round
 # (about 10-15 minutes per property on 16 cores); exhaustive model-checking runs are done once
 THOROUGH_ROUNDS = {"C01": 12, "C02": 4, "C03": 4, "C04": 5, "C05": 8, "C06": 8, "C07": 6, "C08": 12, "C09": 12, "C10": 4, "C11": 4,
-                   "C12": 2, "C13": 4, "C14": 6, "C15": 2, "C16": 4, "C17": 1, "C18": 4, "C19": 4, "C20": 10}
+                   "C12": 2, "C13": 4, "C14": 6, "C15": 1, "C16": 2, "C17": 1, "C18": 10, "C19": 6, "C20": 15}
 
 
 def main(checks):
